@@ -40,6 +40,7 @@ class Result:
         self.exit_env = {}     # bb -> env before the terminator
         self.switches = {}     # bb -> (discr term, [targets followed])
         self.recur = {}        # (header, local) -> set of back-edge terms
+        self.recur_edges = {}  # (header, local) -> list of (back-edge term, path facts on that edge)
         self.init = {}         # (header, local) -> term on loop entry
         self.why_top = None
         self.visited = set()
@@ -235,7 +236,11 @@ class Opa:
                         if l == PC:
                             continue
                         if l in hp:
-                            res.recur.setdefault((s, l), set()).add(self.collapse(v, out))
+                            cv = self.collapse(v, out)
+                            res.recur.setdefault((s, l), set()).add(cv)
+                            lst = res.recur_edges.setdefault((s, l), [])
+                            if (cv, out.get(PC, frozenset())) not in lst:
+                                lst.append((cv, out.get(PC, frozenset())))
                         elif l in old and old[l] is not None and v is not None and v != old[l]:
                             new_phis.setdefault(s, set()).add(l)
                     continue
